@@ -473,7 +473,12 @@ class Gen:
             return ['reg', rng.choice(unreg)]
         if not registered or rng.random() < 0.45:
             k = rng.choice(['r_set', 'r_set', 'r_set', 'r_del', 'r_del', 'r_insert', 'r_insert', 'r_append',
-                            'r_extend', 'r_pop', 'r_pop', 'r_drop', 'r_clear', 'r_claim', 'r_unclaim', 'r_assign'])
+                            'r_extend', 'r_pop', 'r_pop', 'r_drop', 'r_clear', 'r_claim', 'r_unclaim', 'r_assign',
+                            'r_iadd', 'r_reverse'])
+            if k == 'r_reverse' and rng.random() < 0.6:
+                k = 'r_set'
+            if k == 'r_iadd':
+                return [k, [self.raw_spec() for _ in range(rng.randint(0, 2))]]
             if k == 'r_assign':
                 if rng.random() < 0.5:
                     return [k, gen_layout(rng, scn.name)]
@@ -500,20 +505,31 @@ class Gen:
             if k == 'r_pop':
                 return [k, gen_int(rng, nraw)]
             if k == 'r_drop':
-                return [k, sorted({rng.randrange(nraw) for _ in range(rng.randint(0, 3))} if nraw else set())]
+                if rng.random() < 0.6:     # in range, possibly negative / repeated
+                    return [k, [rng.randint(-nraw, nraw - 1) for _ in range(rng.randint(0, 3))] if nraw else []]
+                return [k, [rng.randint(-nraw - 1, nraw + 1) for _ in range(rng.randint(0, 3))]]
             return [k]
         v = rng.choice(registered)
         n = nview[v]
         kinds = ['v_get', 'v_get', 'v_len', 'v_iter', 'v_set', 'v_set', 'v_set', 'v_del', 'v_del', 'v_insert',
-                 'v_insert', 'v_append', 'v_extend', 'v_pop', 'v_pop', 'v_remove', 'v_discard', 'v_clear']
+                 'v_insert', 'v_append', 'v_extend', 'v_pop', 'v_pop', 'v_remove', 'v_discard', 'v_clear',
+                 'x_iadd', 'x_index', 'x_count', 'x_in', 'x_reversed', 'x_reverse']
         if scn.view_specs[v]['mapping']:
             kinds += ['m_get', 'm_contains', 'm_del', 'm_set', 'm_set', 'm_pop', 'm_pop', 'm_keys', 'm_values',
-                      'm_items'] * 2
+                      'm_items', 'm_popitem', 'x_get', 'x_setdefault', 'x_update'] * 2
         k = rng.choice(kinds)
         if k == 'v_clear' and rng.random() < 0.7:
             k = 'v_insert'
-        if k in ('v_len', 'v_iter', 'v_clear', 'm_keys', 'm_values', 'm_items'):
+        if k == 'x_reverse' and rng.random() < 0.6:
+            k = 'x_reversed'
+        if k in ('v_len', 'v_iter', 'v_clear', 'm_keys', 'm_values', 'm_items', 'm_popitem', 'x_reversed', 'x_reverse'):
             return [k, v]
+        if k == 'x_iadd':
+            return [k, v, [self.view_spec(v) for _ in range(rng.randint(0, 2))]]
+        if k in ('x_index', 'x_count', 'x_in'):
+            if n and rng.random() < 0.7:
+                return [k, v, {'ref': rng.randrange(n)}]
+            return [k, v, self.view_spec(v)]
         if k in ('v_get', 'v_del'):
             return [k, v, gen_idx(rng, n)]
         if k == 'v_set':
@@ -540,7 +556,9 @@ class Gen:
             key = rng.choice(present)
         if k in ('m_get', 'm_contains', 'm_del'):
             return [k, v, key]
-        if k == 'm_set':
+        if k == 'x_get':
+            return [k, v, key]
+        if k in ('m_set', 'x_setdefault', 'x_update'):
             if scn.view_specs[v]['mapping'] == 'raw':
                 spec = self.raw_spec([1])
                 if rng.random() < 0.8:
@@ -568,7 +586,7 @@ LIST_LEVEL_FUNCS = ('__getitem__', '__setitem__', '__delitem__', '__iter__', '__
                     'append', 'clear', 'extend', 'pop', 'remove', 'discard', 'drop_many', 'range_from_index',
                     'slice_from_range', 'handle', 'handle_splice', '_notify', '_notify_splice', 'claim',
                     'claim_interleaving_comments', 'unclaim_interleaving_comments', '<genexpr>', '<listcomp>',
-                    'keys', 'values', 'items')
+                    'keys', 'values', 'items', 'popitem', 'reverse')
 
 
 def is_list_level(e: BaseException) -> bool:
@@ -578,6 +596,8 @@ def is_list_level(e: BaseException) -> bool:
         return False
     last = tb[-1]
     fn = last.filename.replace('\\', '/')
+    if '_collections_abc' in fn:      # the MutableSequence / MutableMapping mixin methods
+        return True
     return fn.endswith(ANCHOR_FILES) and last.name in LIST_LEVEL_FUNCS and '/autobean_refactor/' in fn
 
 
@@ -744,7 +764,8 @@ class Runner:
             return self.step_assign(op)
         before = self.items()
         nraw = len(before)
-        vname = op[1] if kind[0] in 'vm' else None
+        vname = op[1] if kind[0] in 'vmx' else None
+        self.force_out = None
         cls = op_class(op, nraw)
         self.post = None
         coq_op, call, expect = self.prepare(op, before)
@@ -756,6 +777,7 @@ class Runner:
         except Exception as e:  # noqa: BLE001
             if not is_list_level(e):
                 self.foreign = f'{type(e).__name__} in {traceback.extract_tb(e.__traceback__)[-1].name}'
+                self.foreign_op = kind
                 return False
             exc = common.exn_name(e)
         after = self.items()
@@ -764,7 +786,7 @@ class Runner:
         # ---- returned value, encoded as the model shows it
         out = []
         if exc is None:
-            out = self.encode_ret(op, vname, ret)
+            out = self.encode_ret(op, vname, ret) if self.force_out is None else self.force_out(ret)
         code = 0 if exc is None else EXC.get(exc, 9)
         idxs = [observe_cache(self.views[v], scn.raw) for v in self.registered]
         has_idx = all(i is not None for i in idxs)
@@ -850,6 +872,13 @@ class Runner:
             got = after if vname is None else [scn.conv(vname, x) for x in self.filtered(vname, after)]
             if not self.same_list(vname, got, exp_list):
                 what = 'the resulting list is not the one the same operation gives on a Python list'
+            elif op[0][0] == 'x' or op[0] == 'm_popitem':
+                def eqv(a, b):
+                    if isinstance(a, (list, tuple)) and isinstance(b, (list, tuple)):
+                        return len(a) == len(b) and all(eqv(p, q) for p, q in zip(a, b))
+                    return a is b or (type(a) is type(b) and a == b)
+                if exp_ret is not None and not (exp_ret is _DEFAULT and op[0] != 'x_get') and not eqv(ret, exp_ret):
+                    what = 'returned a different value than the Python list / first-match mapping does'
             elif exp_ret is not _DEFAULT:
                 if isinstance(exp_ret, list) and op[0][0] == 'm':
                     if not (isinstance(ret, list) and len(ret) == len(exp_ret)
@@ -892,6 +921,10 @@ class Runner:
             return [(0, 0, 1 if ret else 0)]
         if k == 'm_keys':
             return [(0, scn.code(('k', x)), 0) for x in ret]
+        if k == 'm_popitem':
+            kk, x = ret
+            second = scn.elem(x) if scn.view_specs[vname]['mapping'] == 'raw' else (0, 0, scn.code(('mv', repr(x))))
+            return [(0, scn.code(('k', kk)), 0), second]
         if k == 'm_values':
             if scn.view_specs[vname]['mapping'] == 'raw':
                 return [scn.elem(x) for x in ret]
@@ -974,9 +1007,19 @@ class Runner:
                 ps = op[1]
 
                 def f(c):
-                    c[:] = [x for i, x in enumerate(c) if i not in ps]
+                    n = len(c)
+                    if any(not -n <= i < n for i in ps):
+                        raise IndexError('drop_many')
+                    gone = {i + n if i < 0 else i for i in ps}
+                    c[:] = [x for i, x in enumerate(c) if i not in gone]
                     return _DEFAULT
                 return f'(RDropMany {coq_zlist(ps)})', lambda: raw.drop_many(list(ps)), ref_apply(before, f)
+            if k == 'r_iadd':
+                xs = [scn.make_raw(sp) for sp in op[1]]
+                return (f'(RExtend {self.EL(scn.elem(x) for x in xs)})', lambda: raw.__iadd__(xs) and None,
+                        ref_apply(before, lambda c: (c.extend(xs), _DEFAULT)[1]))
+            if k == 'r_reverse':
+                return '(RReverse)', lambda: raw.reverse(), ref_apply(before, lambda c: (c.reverse(), _DEFAULT)[1])
             if k == 'r_claim':
                 return '', lambda: raw.claim_interleaving_comments(), None
             if k == 'r_unclaim':
@@ -997,6 +1040,30 @@ class Runner:
         def eq(a, b):
             return self.same(v, a, b) if scn.view_specs[v]['kind'] != 'KNode' else (a is b or a == b)
 
+        if k == 'x_iadd':
+            xs = [val(sp) for sp in op[2]]
+            return (f'(VExtend {vi} {self.EL(scn.value_elem(v, x) for x in xs)})', lambda: w.__iadd__(xs) and None,
+                    ref_apply(Cb, lambda c: (c.extend(xs), _DEFAULT)[1]))
+        if k == 'x_reverse':
+            return f'(VReverse {vi})', lambda: w.reverse(), ref_apply(Cb, lambda c: (c.reverse(), _DEFAULT)[1])
+        if k in ('x_index', 'x_count', 'x_in', 'x_reversed'):
+            x = val(op[2]) if k != 'x_reversed' else None
+
+            def pos_of(c):
+                for i, y in enumerate(c):
+                    if eq(y, x):
+                        return i
+                raise ValueError('absent')
+            self.force_out = lambda ret: [(0, 0, len(w))]
+            if k == 'x_index':
+                exp = ref_apply(Cb, pos_of)
+                coq = f'(VLen {vi})' if exp[0] is None else f'(VRemove {vi} {self.E(scn.out_elem(v, x))})'
+                return coq, lambda: w.index(x), exp
+            if k == 'x_count':
+                return f'(VLen {vi})', lambda: w.count(x), (None, Cb, sum(1 for y in Cb if eq(y, x)))
+            if k == 'x_in':
+                return f'(VLen {vi})', lambda: x in w, (None, Cb, any(eq(y, x) for y in Cb))
+            return f'(VLen {vi})', lambda: list(reversed(w)), (None, Cb, list(reversed(Cb)))
         if k == 'v_len':
             return f'(VLen {vi})', lambda: len(w), (None, Cb, len(Cb))
         if k == 'v_iter':
@@ -1071,9 +1138,46 @@ class Runner:
         if k == 'm_items':
             return (f'(MItems {vi} {coq_bool(rawmap)})', lambda: list(w.items()),
                     (None, Cb, [(x.key, x) if rawmap else (x.key, x.value) for x in Fb]))
+        if k == 'm_popitem':
+            exp = ('KeyError', None, _DEFAULT) if not Fb else \
+                (None, Cb[1:], (Fb[0].key, Fb[0] if rawmap else Fb[0].value))
+            return f'(MPopItem {vi} {coq_bool(rawmap)})', lambda: w.popitem(), exp
         key = op[2]
         kc = scn.code(('k', key))
         pos = next((i for i, x in enumerate(Fb) if x.key == key), None)
+        if k == 'x_get':
+            self.force_out = lambda ret: [(0, 0, 0 if ret is _DEFAULT else 1)]
+            return (f'(MContains {vi} {kc})', lambda: w.get(key, _DEFAULT),
+                    (None, Cb, _DEFAULT if pos is None else (Fb[pos] if rawmap else Fb[pos].value)))
+        if k in ('x_setdefault', 'x_update'):
+            if rawmap:
+                x = scn.make_raw(op[3])
+                call = (lambda: w.setdefault(key, x)) if k == 'x_setdefault' else (lambda: w.update({key: x}))
+                if k == 'x_setdefault' and pos is not None:
+                    self.force_out = lambda ret: [scn.elem(ret)]
+                    return f'(MGet {vi} true {kc})', call, (None, Cb, Fb[pos])
+                self.force_out = lambda ret: []
+                exp_list = Cb + [x] if pos is None else Cb[:pos] + [x] + Cb[pos + 1:]
+                return (f'(MSet {vi} true {kc} {self.E(scn.elem(x))})', call,
+                        (None, exp_list, x if k == 'x_setdefault' else None))
+            mv = D(op[3]['mv'])
+            call = (lambda: w.setdefault(key, mv)) if k == 'x_setdefault' else (lambda: w.update({key: mv}))
+            if k == 'x_setdefault' and pos is not None:
+                self.force_out = lambda ret: [(0, 0, scn.code(('mv', repr(ret))))]
+                return f'(MGet {vi} false {kc})', call, (None, Cb, Fb[pos].value)
+            self.force_out = lambda ret: []
+            xe = (1, kc, scn.code(('mv', repr(mv))))
+
+            def post(after):
+                Fa = self.filtered(v, after)
+                if pos is not None:
+                    good = self.same_list(v, Fa, Fb) and Fb[pos].value == mv
+                else:
+                    good = (len(Fa) == len(Fb) + 1 and self.same_list(v, Fa[:-1], Fb)
+                            and Fa[-1].key == key and Fa[-1].value == mv)
+                return None if good else f'{k} did not set the first match / append one item'
+            self.post = post
+            return (f'(MSet {vi} false {kc} {self.E(xe)})', call, None)
         if k == 'm_get':
             exp = ('KeyError', None, _DEFAULT) if pos is None else \
                 (None, Cb, Fb[pos] if rawmap else Fb[pos].value)
@@ -1161,6 +1265,11 @@ def run_all(ctx: common.Ctx):
         ctx.count('impl_steps', len(r.steps))
         if r.unobservable:
             ctx.count('private_state_unobservable', r.unobservable)
+        if r.foreign and getattr(r, 'foreign_op', '') in ('r_reverse', 'x_reverse'):
+            ctx.count('reverse_refused_cannot_reuse_node')
+            if not any('reverse()' in n for n in ctx.notes):
+                ctx.notes.append('reverse() of a node list / node view is refused on this tree (MutableSequence.reverse '
+                                 'assigns attached nodes: ValueError "Cannot reuse node"); see fixes/repeated-reverse.patch')
         if r.foreign:
             ctx.count('histories_cut_by_token_layer_exception')
             ctx.dist('token-layer:' + r.foreign)
